@@ -128,7 +128,7 @@ def run(chk):
                   a = sum((f.area for f in pf.get(key, [])), Fraction(0))
                   b = sum((f.area for f in rf.get(key, [])), Fraction(0))
                   if abs(a - b) > 4 * tol.area:
-                      chk.violation('impl-vs-impl', 'face towards generator %d image %s: periodic area %s, replicated-set area %s, %s' % (key[0], key[1], fl(a), fl(b), where), rp, key='face')
+                      chk.violation('impl-vs-impl', 'face towards generator %d image %s: periodic area %s, replicated-set area %s, %s' % (key[0], key[1], fl(a), fl(b), where), rp, key='face' + (' cluster' if r.family.startswith('cluster') else ''))
               chk.traces += 1
               if shifted:
                   chk.nontriv((r.id, i))
